@@ -386,7 +386,7 @@ def run_world(case, sdk, checks):
                     w.flag(i, "batch-rule-not-detected", "a BatchWriteItem with %d requests / a malformed write request was accepted" % n_req)
             continue
         if name == "batchGet":
-            if k == "batchGet" and "batch" in checks:
+            if k == "batchGet" and ("batch" in checks or "roundtrip" in checks):
                 resp = dict((tn, its) for tn, its in o["batchGet"]["responses"])
                 unp = dict((tn, ks) for tn, ks in o["batchGet"]["unprocessed"])
                 for tn, keys in op.get("greqs", []):
@@ -401,7 +401,7 @@ def run_world(case, sdk, checks):
                     got = [canon_item(x) for x in resp.get(tn, [])]
                     if sorted(map(repr, want)) != sorted(map(repr, got)):
                         w.flag(i, "batchget-responses", "BatchGetItem returned other items than the individual GetItem calls would", impl=o)
-                    for kk in unp.get(tn, []):
+                    for kk in (unp.get(tn, []) if "batch" in checks else []):
                         key = keytuple(tt.schema, kk)
                         if key is not None and key not in tt.items:
                             w.flag(i, "batchget-absent-unprocessed", "a key with no stored item is reported in UnprocessedKeys", impl=json.dumps(o)[:200])
